@@ -16,7 +16,7 @@ import warnings
 from .. import real
 
 LEVEL = "exploration"
-TECHNIQUE = "runtime monitoring: generated programs of nested/recursive decorated calls, context blocks, manual checks and exits of every exception class, executed against the real code with print_bindings() logged at every program point and compared with a stack-of-dicts reference interpreter; sibling programs generated for and executed under python -O / -OO in child processes"
+TECHNIQUE = "runtime monitoring: generated programs of nested/recursive decorated calls, context blocks, manual checks and exits of every exception class, executed against the real code with print_bindings() logged at every program point and compared with a stack-of-dicts reference interpreter; sibling programs generated for and executed under python -O / -OO in child processes; scopes and decorated calls entered at every distance from the recursion limit (fresh process): whether the entry succeeds or dies with RecursionError, afterwards no scope is left open"
 LEVEL_TEXT = (
     "Held on every generated program explored (thousands per run, depth <=6, every construct x exit-kind pair required "
     "to be executed). The oracle is a trivial interpreter, so any leak, missing pop or premature pop shows at the first "
@@ -44,7 +44,7 @@ def shards(tier):
 
 def required_counters(tier):
     d = {f"pair.{c}.{e}": 1 for c in CONSTRUCTS if c != "nonbinding" for e in EXITS}
-    d.update({"programs": 1000, "observations": 10000, "depth>=3": 200, "argcheck.callee": 100, "argcheck.caller_after": 100, "argcheck.no_arg_in_frame": 100, "toplevel_checks": 200, "pair.nonbinding.TypeError": 50, "programs.optimized_interpreter": 20, "calls_made_by_exec_inside_an_open_call": 100, "decorated_inside_a_live_scope": 200})
+    d.update({"programs": 1000, "stack_exhaustion.entries": 100, "stack_exhaustion.entries_that_died_with_RecursionError": 5, "observations": 10000, "depth>=3": 200, "argcheck.callee": 100, "argcheck.caller_after": 100, "argcheck.no_arg_in_frame": 100, "toplevel_checks": 200, "pair.nonbinding.TypeError": 50, "programs.optimized_interpreter": 20, "calls_made_by_exec_inside_an_open_call": 100, "decorated_inside_a_live_scope": 200})
     return d
 
 
@@ -603,11 +603,43 @@ def run_optimized(rec, jobs, flag):
         os.unlink(jf)
 
 
+def arm_stack_exhaustion(rec):
+    """scopes and decorated calls ENTERED at every distance (1..79 frames) from the recursion limit, in a fresh process
+    (jtv/checks/c05_stack_child.py): the entry succeeds or dies with RecursionError; afterwards, at ordinary depth,
+    checks outside every scope are stateless and a fresh scope starts and ends empty"""
+    import subprocess
+
+    root = os.path.dirname(os.path.dirname(os.path.dirname(os.path.abspath(__file__))))
+    env = dict(os.environ)
+    env["PYTHONPATH"] = os.pathsep.join([os.environ.get("JTV_REPO", "/repo"), root])
+    r = subprocess.run([sys.executable, os.path.join(root, "jtv", "checks", "c05_stack_child.py"), "80"], capture_output=True, text=True, env=env, timeout=900, cwd=root)
+    try:
+        res = json.loads(r.stdout.strip().splitlines()[-1])
+    except Exception:
+        rec.inconclusive.append(f"stack-exhaustion child failed: rc={r.returncode} {r.stderr[-400:]}")
+        return
+    for c in res["cases"]:
+        rec.count("stack_exhaustion.entries")
+        rec.count("stack_exhaustion.entries_that_died_with_RecursionError", int(c["entry"] == "RecursionError"))
+        rec.case(("stack-exhaustion", c["kind"], c["margin"]), c["entry"] == "RecursionError")
+        if c["entry"] not in ("entered", "RecursionError"):
+            rec.violation("stack-exhaustion", {"stack_exhaustion": c}, f"{c['kind']} entered {c['margin']} frames below the recursion limit ended with {c['entry']}", mechanism="entry-near-recursion-limit-" + c["entry"])
+            return
+        if c["toplevel"] != [True, True]:
+            rec.violation("lifetime", {"stack_exhaustion": c}, f"{c['kind']} entered {c['margin']} frames below the recursion limit ({c['entry']}); back at ordinary depth and outside every scope, arrays of size 4 and 5 against Float[ndarray, 'jtvn'] give {c['toplevel']} - a scope is still open", mechanism="context-left-open-after-RecursionError-on-entry")
+            return
+        if c["fresh_scope"] != [True, True, False]:
+            rec.violation("lifetime", {"stack_exhaustion": c}, f"{c['kind']} entered {c['margin']} frames below the recursion limit ({c['entry']}); a fresh scope afterwards answers {c['fresh_scope']} for sizes 6, 6, 7 (expected [True, True, False])", mechanism="fresh-scope-not-empty-after-RecursionError-on-entry")
+            return
+
+
 def run_shard(rec, seed, shard, tier):
     global _OTHER_INTERPRETER
     warnings.filterwarnings("ignore")
     _TIER[0] = tier
     _OTHER_INTERPRETER = [] if shard["i"] % 4 in (0, 2) else None
+    if shard["i"] == 1:
+        arm_stack_exhaustion(rec)
     for k in range(CASES[tier]):
         key = f"{seed}/C05/{shard['i']}/{k}"
         run_program(rec, random.Random(key), key)
